@@ -23,9 +23,11 @@
   The result `on_final_cbs` is a list of `partial(machine.callbacks, <owner>.on_final, event_data)`, one
   per owner, which `_change_state` calls in order; it is modelled as the list of owners.
 
-  Control flow is kept code-shaped: in particular the loop variable `is_final` of the `for` statement
-  doubles as the function's return value (DESIGN 6, item 10), and a state that has active children
-  never reaches the `elif … final` branch (item 11).  Import-free: the driver links this file.
+  Control flow is kept code-shaped.  This is the code after the fix: commits 919a36b (the loop variable
+  no longer doubles as the return value, DESIGN 6 items 10/18) and 576f1fd (a final-flagged state that
+  has just been entered fires also when its active children are not all final, item 11).  The root call
+  can still reach `machine.scoped_enter` syntactically; `C18_nested_exact` proves it never does.
+  Import-free: the driver links this file.
 -/
 namespace TM
 namespace Final
@@ -60,8 +62,8 @@ inductive Owner
 bound methods are equal iff they are the same method of the same state object -/
 def entered (E : List Nat) (s : Nat) : Bool := E.contains s
 
-/-- `(on_final_cbs, all_children_final, is_final)` while the `for` loop runs -/
-abbrev LoopSt := List Owner × Bool × Bool
+/-- `(on_final_cbs, all_children_final)` while the `for` loop runs -/
+abbrev LoopSt := List Owner × Bool
 
 mutual
 /-- `_final_check` with the scope of state `s` open (reached through `_final_check_nested`).
@@ -69,8 +71,8 @@ Returns `(on_final_cbs, is_final)`. -/
 def finalCheck (D : Defs) (E : List Nat) : Tree → List Owner × Bool
   | .node s kids =>
     -- on_final_cbs = []; is_final = False
-    -- if state_tree: all_children_final = True; for child_cbs, is_final in (…): …
-    let r := finalLoop D E kids [] true false
+    -- if state_tree: all_children_final = True; for child_cbs, child_final in (…): …
+    let r := finalLoop D E kids [] true
     if kids.isEmpty then
       -- elif getattr(scoped, 'final', False):
       if D.final s then
@@ -78,21 +80,24 @@ def finalCheck (D : Defs) (E : List Nat) : Tree → List Owner × Bool
         -- is_final = True
         (if entered E s then [.state s] else [], true)
       else ([], false)
-    else if r.2.1 then
+    else if r.2 then
       -- if all_children_final:
       --     if on_final_cbs or any(scoped.scoped_enter == part.func …): on_final_cbs.append(…)
       --     is_final = True
       (if !r.1.isEmpty || entered E s then r.1 ++ [.state s] else r.1, true)
-    else
-      -- not all children final: `is_final` still holds what the loop assigned last
-      (r.1, r.2.2)
-/-- the loop `for child_cbs, is_final in (self._final_check_nested(state, …) for state in state_tree)`:
-`if not is_final: all_children_final = False`; `on_final_cbs.extend(child_cbs)` -/
-def finalLoop (D : Defs) (E : List Nat) : List Tree → List Owner → Bool → Bool → LoopSt
-  | [], cbs, all, isf => (cbs, all, isf)
-  | t :: ts, cbs, all, _ =>
+    else if D.final s && entered E s then
+      -- elif getattr(scoped, 'final', False) and any(scoped.scoped_enter == part.func …):
+      --     on_final_cbs.append(…)            (is_final stays False)
+      (r.1 ++ [.state s], false)
+    else (r.1, false)
+/-- the loop `for child_cbs, child_final in (self._final_check_nested(state, …) for state in state_tree)`:
+`if not child_final: all_children_final = False`; `on_final_cbs.extend(child_cbs)` — every child is
+visited, also after a non-final one -/
+def finalLoop (D : Defs) (E : List Nat) : List Tree → List Owner → Bool → LoopSt
+  | [], cbs, all => (cbs, all)
+  | t :: ts, cbs, all =>
     let c := finalCheck D E t
-    finalLoop D E ts (cbs ++ c.1) (all && c.2) c.2
+    finalLoop D E ts (cbs ++ c.1) (all && c.2)
 end
 
 /-- outcome of the root call in `_change_state` -/
@@ -106,13 +111,13 @@ inductive RootResult
 /-- `_final_check` at the root scope (`with event_data.machine():` — `scoped` is the machine, which has
 no `final` attribute and no `scoped_enter`); `roots` is the whole new configuration. -/
 def finalCheckRoot (D : Defs) (E : List Nat) (roots : List Tree) : RootResult :=
-  let r := finalLoop D E roots [] true false
+  let r := finalLoop D E roots [] true
   if roots.isEmpty then .ok []                       -- getattr(machine, 'final', False) → False
-  else if r.2.1 then
+  else if r.2 then
     if !r.1.isEmpty then .ok (r.1 ++ [.machine])     -- `on_final_cbs or …` short-circuits
     else if E.isEmpty then .ok r.1                   -- any() over no partials: nothing is evaluated
     else .attributeError                             -- first partial: `machine.scoped_enter`
-  else .ok r.1
+  else .ok r.1      -- `elif getattr(machine, 'final', False) and …`: False, nothing is evaluated
 
 /-- the callbacks `_change_state` then runs: `for on_final_cb in on_final_cbs: on_final_cb()`, each a
 `machine.callbacks(owner.on_final, event_data)` -/
@@ -121,49 +126,6 @@ def Defs.cbsOf (D : Defs) : Owner → List Nat
   | .machine => D.machineOnFinal
 
 def runCalls (D : Defs) (owners : List Owner) : List Nat := owners.flatMap D.cbsOf
-
-/-! ### the same function with the candidate patches switched on
-
-`leakFixed`  = proposed_fixes/C18_1.diff: the loop variable no longer doubles as the return value
-               (`is_final` stays False unless all children are final);
-`compoundFixed` = proposed_fixes/C18_2.diff: a final-flagged state that has just been entered runs its own
-               on_final callbacks also when it has active children that are not all final.
-`⟨false, false⟩` is the code as it is (`finalCheckV_asis`). -/
-
-structure Variant where
-  leakFixed : Bool
-  compoundFixed : Bool
-  deriving DecidableEq, Repr, Inhabited
-
-def Variant.asIs : Variant := ⟨false, false⟩
-def Variant.patched : Variant := ⟨true, true⟩
-
-mutual
-def finalCheckV (v : Variant) (D : Defs) (E : List Nat) : Tree → List Owner × Bool
-  | .node s kids =>
-    let r := finalLoopV v D E kids [] true false
-    if kids.isEmpty then
-      if D.final s then (if entered E s then [.state s] else [], true) else ([], false)
-    else if r.2.1 then
-      (if !r.1.isEmpty || entered E s then r.1 ++ [.state s] else r.1, true)
-    else
-      (if v.compoundFixed && D.final s && entered E s then r.1 ++ [.state s] else r.1,
-       if v.leakFixed then false else r.2.2)
-def finalLoopV (v : Variant) (D : Defs) (E : List Nat) : List Tree → List Owner → Bool → Bool → LoopSt
-  | [], cbs, all, isf => (cbs, all, isf)
-  | t :: ts, cbs, all, _ =>
-    let c := finalCheckV v D E t
-    finalLoopV v D E ts (cbs ++ c.1) (all && c.2) c.2
-end
-
-def finalCheckRootV (v : Variant) (D : Defs) (E : List Nat) (roots : List Tree) : RootResult :=
-  let r := finalLoopV v D E roots [] true false
-  if roots.isEmpty then .ok []
-  else if r.2.1 then
-    if !r.1.isEmpty then .ok (r.1 ++ [.machine])
-    else if E.isEmpty then .ok r.1
-    else .attributeError
-  else .ok r.1
 
 end Final
 end TM
